@@ -6,6 +6,7 @@ import (
 	"io"
 	"os"
 	"strings"
+	"sync"
 	"syscall"
 	"time"
 
@@ -110,7 +111,42 @@ func (d *probeDec) Format(str string) (string, int) {
 }
 
 func (d *probeDec) onShutdown() {
+	if d.spec.ShutGet {
+		shutBars.mu.Lock()
+		var b *mpb.Bar
+		if d.bar < len(shutBars.bars) {
+			b = shutBars.bars[d.bar]
+		}
+		shutBars.mu.Unlock()
+		if b != nil {
+			// the getters of a bar are documented to work at any time, from any goroutine
+			cur, comp, ab := b.Current(), b.Completed(), b.Aborted()
+			simrt.Log(simrt.Entry{Kind: EvShutdown, ID: d.bar, A: int64(d.side), B: int64(d.ord), S: fmt.Sprintf("%d/%v/%v", cur, comp, ab)})
+			return
+		}
+	}
 	simrt.Log(simrt.Entry{Kind: EvShutdown, ID: d.bar, A: int64(d.side), B: int64(d.ord)})
+}
+
+// shutBars publishes bar handles to the ShutGet listeners (only used when the scenario has one).
+var shutBars struct {
+	mu   sync.Mutex
+	on   bool
+	bars []*mpb.Bar
+}
+
+func initShutBars(sc *Scenario) {
+	shutBars.on = false
+	shutBars.bars = make([]*mpb.Bar, len(sc.Bars))
+	for i := range sc.Bars {
+		for _, l := range [][]DecSpec{sc.Bars[i].Pre, sc.Bars[i].App} {
+			for _, d := range l {
+				if d.ShutGet {
+					shutBars.on = true
+				}
+			}
+		}
+	}
 }
 
 func (d *probeDec) ewmaUpdate(n int64, dur time.Duration) {
